@@ -254,6 +254,18 @@ def _s3b_delegating_operators(program, res):
                         f"a keys view or plain set answers with a hash ordered set", delegated[0])
         elif walks_self and walks_other:
             res.ok("C24-S3", f"{op} walks self, then the other operand, itself")
+            # OrderedSet(None) is the empty set: an operator that builds an ordered copy of its operand has to refuse what is not iterable first,
+            # as the inherited operators (and a plain set) do
+            copies = [st for st in m.node.body if isinstance(st, ast.Assign) and unparse(st.targets[0]) == other and "OrderedSet(" in unparse(st.value)]
+            if copies:
+                before = m.node.body[:m.node.body.index(copies[0])]
+                refuses = any(isinstance(st, ast.If) and "Iterable" in unparse(st.test) and st.body and isinstance(st.body[-1], (ast.Return, ast.Raise)) for st in before) \
+                    or any(isinstance(st, ast.Assert) and "Iterable" in unparse(st.test) for st in before)
+                if refuses:
+                    res.ok("C24-S3", f"{op} refuses an operand that is not iterable before copying it")
+                else:
+                    res.fail_at("C24-S3", m, f"operator-takes-non-iterable:{op}", f"OrderedSet.{op} copies its operand with `{unparse(copies[0])}`: OrderedSet(None) is the empty set, so "
+                                f"`s ^ None` answers with a copy of s where a plain set and the inherited operator raise TypeError", copies[0])
         else:
             res.fail_at("C24-S3", m, f"operator-not-ordered-by-operands:{op}", f"OrderedSet.{op} does not build its result by iterating self and then the other operand")
 
